@@ -1650,3 +1650,23 @@ mut("C10", "whole-word-fast-path-local-first", "R10-4|shell::expand_one_env|prec
 mut("C12", "group-returns-unshortened-rest", "R12-12|shell::brace_getgroup|closing-brace-consumed",
     "the comma-less group hands back the remainder with its closing brace still in it",
     (S, "            return Some((result, sss));", "            return Some((result, ss));"))
+
+mut("C12", "tilde-any-suffix", "R12-13|shell::expand_home|tilde-forms", "~name gets the home directory spliced in front",
+    (S, """        let ptn = r"^~(?P<tail>/.*)?$";""", """        let ptn = r"^~(?P<tail>.*)";"""))
+ref("tilde-gate-in-code", ["C12", "C05"], "expand_home: the `~` / `~/` test written in code, pattern left wide",
+    (S, """        if !sep.is_empty() || !text.starts_with("~") {
+            idx += 1;
+            continue;
+        }
+
+        let mut s: String = text.clone();""", """        if !sep.is_empty() || !text.starts_with("~") {
+            idx += 1;
+            continue;
+        }
+        if !(text == "~" || text.starts_with("~/")) {
+            idx += 1;
+            continue;
+        }
+
+        let mut s: String = text.clone();"""),
+    (S, """        let ptn = r"^~(?P<tail>/.*)?$";""", """        let ptn = r"^~(?P<tail>.*)";"""))
